@@ -42,13 +42,45 @@ Theorem C05_rdev_rebuilt : forall r : N, r < 2 ^ 32 -> mkdev (rdev_major r) (rde
 Proof. exact mkdev_split. Qed.
 Print Assumptions C05_rdev_rebuilt.
 
-(* FINDING (format conversion): untar --output-format gnu-tar writes the os.FileMode word into
+(* KNOWN FINDING (format conversion; the repair would change the bytes the repository's own
+   fixture test TestGnuTarWrite pins): untar --output-format gnu-tar writes the os.FileMode word into
    the tar header; what tar --input-format tar (archive/tar's FileInfo) reads back of it is the
    nine rwx bits only -- set-uid, set-gid and sticky are lost for every mode. *)
 Theorem C05_gnutar_mode_refuted : forall m : N,
   m < 2 ^ 16 -> tar_mode_back (tar_header_mode m) = N.land m 511.
 Proof. exact gnutar_mode_loses_special_bits. Qed.
 Print Assumptions C05_gnutar_mode_refuted.
+
+(* tarfs.go / mtreefs.go CreateDevice (since "fix: gnu-tar and mtree output report character
+   devices as such"): a device node is written as a character device exactly when its st_mode
+   says so -- all 2^16 mode words.  Before the fix (n.Mode&0x4000) no mode word at all was. *)
+Theorem C05_writer_char_device : forall m : N,
+  m < 2 ^ 16 -> (N.land m S_IFMT = S_IFCHR \/ N.land m S_IFMT = S_IFBLK) ->
+  writer_is_char (stat_to_filemode m) = (N.land m S_IFMT =? S_IFCHR).
+Proof. exact writer_char_correct. Qed.
+Print Assumptions C05_writer_char_device.
+
+Theorem C05_writer_char_device_prefix_refuted : forall m : N,
+  m < 2 ^ 16 -> writer_is_char_prefix (stat_to_filemode m) = false.
+Proof. exact writer_char_prefix_refuted. Qed.
+Print Assumptions C05_writer_char_device_prefix_refuted.
+
+(* mtreefs.go (since "fix: mtree output pads nanoseconds with zeros and shows set-id/sticky
+   bits"): mode= carries all twelve permission bits; the nanoseconds are printed as exactly nine
+   digits that read back as the number.  Before: the nine rwx bits only. *)
+Theorem C05_mtree_mode : forall m : N, m < 2 ^ 16 -> mtree_mode (stat_to_filemode m) = N.land m 4095.
+Proof. exact mtree_mode_correct. Qed.
+Print Assumptions C05_mtree_mode.
+
+Theorem C05_mtree_mode_prefix_refuted : forall m : N,
+  m < 2 ^ 16 -> mtree_mode_prefix (stat_to_filemode m) = N.land m 511.
+Proof. exact mtree_mode_prefix_refuted. Qed.
+Print Assumptions C05_mtree_mode_prefix_refuted.
+
+Theorem C05_mtree_nsec : forall ns : N,
+  ns < 10 ^ 9 -> length (fmt_nsec ns) = 9%nat /\ read_digits (fmt_nsec ns) = ns.
+Proof. exact fmt_nsec_correct. Qed.
+Print Assumptions C05_mtree_nsec.
 
 (* 0104755: a set-uid regular file with rwxr-xr-x *)
 Example C05_mode_example : stat_to_filemode 35309 = N.lor GoModeSetuid 493 /\
@@ -101,7 +133,16 @@ Theorem C05_xattr_order_irrelevant : forall l1 l2 : list (bytes * bytes),
 Proof. exact sort_xattrs_perm. Qed.
 Print Assumptions C05_xattr_order_irrelevant.
 
-(* FINDING: an archive whose root is a symlink is written but decodes to nothing: the symlink is
+(* Fifos and sockets are left out (tar() warns and skips them; outside what C05 quantifies over)
+   and they are left out cleanly: the archive of a tree is the archive of the tree without them
+   ([prune]) -- no filename element, no goodbye item -- and so are the decoded nodes. *)
+Theorem C05_fifos_left_out : forall t : tree,
+  tar_of_tree (prune t) = tar_of_tree t /\ nodes_of [] (prune t) = nodes_of [] t.
+Proof. exact fifos_left_out. Qed.
+Print Assumptions C05_fifos_left_out.
+
+(* A FACT about the model, outside the property (C05 is about directory trees; not judged by the
+   check): an archive whose root is a symlink is written but decodes to nothing: the symlink is
    lost without an error (ArchiveDecoder.Next waits for the element after the symlink element and
    takes the end of the stream for the end of the archive).  Same for a device root. *)
 Theorem C05_root_symlink_lost : forall a tg,
@@ -145,7 +186,7 @@ Theorem C05_untar_restores : forall (pr : proc) a ch,
 Proof. exact untar_restores. Qed.
 Print Assumptions C05_untar_restores.
 
-(* FINDINGS, each for EVERY tree that contains such an object and every option set
+(* KNOWN FINDINGS, each for EVERY tree that contains such an object and every option set
    ([unpacked pr o t r]: r is the result of the run above). *)
 
 (* a directory with at least one archived child keeps the time of extraction *)
@@ -156,13 +197,15 @@ Theorem C05_dir_mtime_lost : forall pr o a ch r p a' ch',
 Proof. exact dir_mtime_lost. Qed.
 Print Assumptions C05_dir_mtime_lost.
 
-(* a symlink keeps the time of extraction *)
-Theorem C05_symlink_mtime_lost : forall pr o a ch r p a' tg,
+(* REPAIRED ("fix: untar restores the modification time of symlinks"): a symlink comes back with
+   its own mtime (utimensat, AT_SYMLINK_NOFOLLOW).  The writer as it was before is
+   [untar_prefix]; C05_symlink_mtime_prefix_refuted below evaluates it. *)
+Theorem C05_symlink_mtime_restored : forall pr o a ch r p a' tg,
   wf_tree (TDir a ch) -> unique_tree (TDir a ch) -> unpacked pr o (TDir a ch) r ->
-  tree_at p (TDir a ch) = Some (TLink a' tg) ->
-  exists m, lookup p r = Some (FLink m tg) /\ fm_mtime m = Now.
-Proof. exact symlink_mtime_lost. Qed.
-Print Assumptions C05_symlink_mtime_lost.
+  tree_at p (TDir a ch) = Some (TLink a' tg) -> t_mtime a' <> 0 ->
+  exists m, lookup p r = Some (FLink m tg) /\ fm_mtime m = Stamp (t_mtime a').
+Proof. exact symlink_mtime_restored. Qed.
+Print Assumptions C05_symlink_mtime_restored.
 
 (* an mtime of exactly 1970-01-01T00:00:00Z is not applied *)
 Theorem C05_epoch_mtime_lost : forall pr o a ch r p c,
@@ -172,7 +215,8 @@ Theorem C05_epoch_mtime_lost : forall pr o a ch r p c,
 Proof. exact epoch_mtime_lost. Qed.
 Print Assumptions C05_epoch_mtime_lost.
 
-(* --no-same-owner drops all extended attributes *)
+(* A FACT about the model, outside the property (options other than the defaults; not judged by
+   the check): --no-same-owner drops all extended attributes *)
 Theorem C05_no_same_owner_drops_xattrs : forall pr nsp a ch r p c,
   wf_tree (TDir a ch) -> unique_tree (TDir a ch) -> unpacked pr (mkLopts true nsp) (TDir a ch) r ->
   tree_at p (TDir a ch) = Some c -> supported_tree c = true ->
@@ -199,6 +243,19 @@ Definition run_model (pr : proc) (o : lopts) (t : tree) : option fnode :=
   | None => None
   end.
 
+(* the same with the LocalFS writer as it was before the symlink-time fix *)
+Definition run_model_prefix (pr : proc) (o : lopts) (t : tree) : option fnode :=
+  match tar_of_tree t with
+  | Some b => match decode_archive b with
+              | Ok (ns, []) => match untar_prefix pr o ns (empty_root pr) with
+                               | FOk r => Some r
+                               | FErr _ => None
+                               end
+              | _ => None
+              end
+  | None => None
+  end.
+
 Definition C05_pr : proc := mkProc 0 0 18.
 Definition C05_run (o : lopts) : option fnode := run_model C05_pr o C05_witness.
 
@@ -214,8 +271,10 @@ Definition xattrs_at (p : list bytes) (r : option fnode) : option (list (bytes *
 (* dir_mtime_refuted: the root had mtime 1000 and has children *)
 Example C05_dir_mtime_refuted : mtime_at [] (C05_run default_opts) = Some Now.
 Proof. vm_compute. reflexivity. Qed.
-(* symlink_mtime_refuted: the symlink had mtime 9 *)
-Example C05_symlink_mtime_refuted : mtime_at [[98]] (C05_run default_opts) = Some Now.
+(* the symlink had mtime 9: restored now, the time of extraction with the writer before the fix *)
+Example C05_symlink_mtime_example : mtime_at [[98]] (C05_run default_opts) = Some (Stamp 9).
+Proof. vm_compute. reflexivity. Qed.
+Example C05_symlink_mtime_prefix_refuted : mtime_at [[98]] (run_model_prefix C05_pr default_opts C05_witness) = Some Now.
 Proof. vm_compute. reflexivity. Qed.
 (* the file with mtime 0 *)
 Example C05_epoch_mtime_refuted : mtime_at [[100]] (C05_run default_opts) = Some Now.
@@ -272,3 +331,13 @@ Example C05_path_example :
   GoPath.join [PathTie.render_dir [[97]; [46; 46; 46]]; [32; 98]] = [97; 47; 46; 46; 46; 47; 32; 98] /\
   GoPath.dir [97; 47; 46; 46; 46] = [97] /\ GoPath.dir [97] = [46].
 Proof. vm_compute. repeat split; reflexivity. Qed.
+
+(* non-vacuity of C05_fifos_left_out: a directory holding a fifo and a file; pruning removes the
+   fifo, the archive stays the same *)
+Definition C05_fifo_tree : tree :=
+  TDir (mkAttrs 16877 0 0 1000 [])
+    [ ([97], TOther (mkAttrs 4516 0 0 1 [])); ([98], TFile (mkAttrs 33188 0 0 5 []) [1; 2; 3]) ].
+Example C05_fifo_example :
+  prune C05_fifo_tree = TDir (mkAttrs 16877 0 0 1000 []) [([98], TFile (mkAttrs 33188 0 0 5 []) [1; 2; 3])] /\
+  tar_of_tree (prune C05_fifo_tree) = tar_of_tree C05_fifo_tree /\ tar_of_tree C05_fifo_tree <> None.
+Proof. vm_compute. repeat split; try reflexivity. discriminate. Qed.
